@@ -79,3 +79,21 @@ Definition root_kid_attrs (d : list N) : option (list (N * cdata)) :=
   end.
 Example R4_both_stored : option_map (fun a => List.length a) (root_kid_attrs doc_R4) = Some 2%nat. Proof. vm_compute. reflexivity. Qed.
 Example R8_no_trace : root_kid_attrs doc_R8 = Some []. Proof. vm_compute. reflexivity. Qed.
+
+(* where the interpretation deliberately differs from a naive reading: a Pattern value is the text ITSELF (blanks at the
+   ends dropped), its references are not decoded - although the text denotes "1.0.0;a&b" (Unesc) *)
+From AV Require Import Xml.StrictValidEntities Xml.RoundTripReload.
+Open Scope string_scope.
+Example pattern_not_decoded :
+  ValueOf tab_enum accept_all no_float 0 (CPattern 24 None) (BS " 1.0.0;a&amp;b ") (DString (BS "1.0.0;a&amp;b")) /\
+  Unesc (BS "1.0.0;a&amp;b") (BS "1.0.0;a&b") /\
+  ValueOf tab_enum accept_all no_float 0 (CString false None) (BS " 1.0.0;a&amp;b ") (DString (BS "1.0.0;a&b")).
+Proof.
+  assert (S : strip (BS " 1.0.0;a&amp;b ") = BS "1.0.0;a&amp;b") by (vm_compute; reflexivity).
+  assert (U : Unesc (BS "1.0.0;a&amp;b") (BS "1.0.0;a&b")).
+  { repeat (apply un_byte; [discriminate|]). apply un_amp. apply un_byte; [discriminate|]. constructor. }
+  split; [|split; [exact U|]].
+  - rewrite <- S. constructor; rewrite ?S; reflexivity.
+  - constructor; cbv iota; rewrite ?S; try reflexivity. exact U.
+Qed.
+Open Scope list_scope.
